@@ -3,12 +3,19 @@ import NasdaqModel.Model.AppSession
 C05, application sessions — machine-checked histories, replayed on the implementation every run by harness/app_sessions.py
 (`app.witness <name>` prints these very event lists).
 
-(A) the known finding C05-app-close-from-message-callback: `close()` awaited from the application-level message callback gets
-    `CancelledError` (the dispatcher task running the callback is cancelled by the very close it is waiting for) — and the
-    session still closes completely: close callback entered and left once, event set, everything reports closed.
-(B) regression of /repo 7eb8348: with the old order in `_on_soup_close` (`closedFirst := false`: `closed = True` only after
-    `await self._message_queue.stop()`) a message callback whose cancellation clean-up awaits `close()` deadlocks the whole
-    close; with the repaired order the same history closes completely.
+(A) `close()` awaited from the application-level message callback (the repaired finding C05-app-close-from-message-callback):
+    the close is carried out by the calling task — the second dispatcher `D2` — which stops the soup session's tasks, closes the
+    transport, runs `_on_soup_close` (queue stopped without cancelling itself, `closed`, the user's close callback, event set);
+    `close()` returns normally to the callback, the callback returns, no further message callback starts, the session is closed
+    completely.  `Witness/C05AppOld.lean` decides that the transition relation before the repair ends the same call with
+    `CancelledError` on the recorded history.
+(B) regression of /repo 7eb8348: a message callback whose cancellation clean-up awaits `close()`: with the order of
+    `_on_soup_close` as it is (`closed = True` first) the call returns at once through the guard.  With the old order
+    (`closedFirst := false`) it used to deadlock (`Witness/C05AppOld.lean`: old `close()`); since the repair of (A) it does not
+    any more even with the old order: the clean-up's `close()` runs on the dispatcher, finds the soup session closed and returns.
+(C) the race of (A) with a close that another task has already started: the callback's `close()` returns at once (soup session
+    already closing: `AsyncSession.close()`'s guard), the dispatcher goes on — the next callback may start — until the other
+    closer reaches `_on_soup_close`, stops the dispatcher (the callback in flight is abandoned) and sets the event.
 -/
 namespace NasdaqModel.Witness.C05App
 open NasdaqModel App
@@ -23,29 +30,46 @@ def cfgA : ACfg :=
   { dec := fun n => if n = 0 then .skip else .val n
     hasMsgCb := true, msgBeh := fun v => if v = 3 then .close else .ret, hasCb := true, cbBeh := .ret, closedFirst := true }
 
-/-- messages 3 and 4 arrive; the callback for 3 awaits `app.close()`: event created, closing task started, the callback waits;
-    the closing task stops the soup session, enters `_on_soup_close`, cancels the second dispatcher — i.e. the waiting callback —
-    and completes the close -/
+/-- messages 3 and 4 arrive; the callback for 3 awaits `app.close()`: event created, `D2` enters `soup_session.close()` and stops
+    the soup session's dispatcher, monitors and reader one after the other (each `run D2` is a step of the inner task `U 0`),
+    closes the transport, runs `_on_soup_close` and returns into the callback -/
 def historyA : List Ev := login ++
   [.run .D2, .inner (.run .D), .inner (.data [.msg 3, .msg 4]), .inner (.run .R), .inner (.run .R),
    .inner (.run .D), .inner (.run .D), .inner (.run .D), .run .D2,
-   .inner (.run .C), .inner (.run .D), .inner (.run .C), .inner (.run .L), .inner (.run .C), .inner (.run .M), .inner (.run .C),
-   .inner (.run .R), .inner (.run .C), .run .D2, .inner (.run .C)]
+   .inner (.run .D), .run .D2, .inner (.run .L), .run .D2, .inner (.run .M), .run .D2, .inner (.run .R), .run .D2]
 
 set_option maxRecDepth 100000 in
-/-- the `close()` call of the handler ends with `CancelledError`, the handler is abandoned … -/
-theorem C05App_witness_close_from_handler_cancelled :
+/-- the `close()` call of the handler returns normally after the close callback, the handler returns … -/
+theorem C05App_witness_close_from_handler_returns :
     (runEvs cfgA {} historyA).trace2 =
-      [.msgEnter 3, .closeRet (.handler 3) .cancelled, .msgAbandon 3, .cbEnter, .cbExit] := by decide
+      [.msgEnter 3, .cbEnter, .cbExit, .closeRet (.handler 3) .ok, .msgExit 3] := by decide
 
 set_option maxRecDepth 100000 in
-/-- … and the session still closes completely: soup close finished, `_on_soup_close` returned, application session reports
-    closed, queue stopped, event set, second dispatcher ended, the undelivered message 4 stays in the stopped queue -/
+/-- … and the session is closed completely: soup close finished, `_on_soup_close` returned, application session reports
+    closed, queue stopped, event set, second dispatcher ended in the same step, the undelivered message 4 stays in the
+    stopped queue, `_dispatcher_task` is `None` -/
 theorem C05App_witness_close_from_handler_completes :
     (runEvs cfgA {} historyA).inner.cstage = .finished ∧ (runEvs cfgA {} historyA).cpc = .finished ∧
     (runEvs cfgA {} historyA).appClosed = true ∧ (runEvs cfgA {} historyA).q2Closed = true ∧
     (runEvs cfgA {} historyA).evt = some true ∧ (runEvs cfgA {} historyA).astatus .D2 = .done ∧
-    (runEvs cfgA {} historyA).q2 = [4] := by decide
+    (runEvs cfgA {} historyA).disp2Set = false ∧ (runEvs cfgA {} historyA).q2 = [4] := by decide
+
+set_option maxRecDepth 100000 in
+/-- while the close is under way `D2` is inside `soup_session.close()`, runnable exactly when its inner alias is -/
+theorem C05App_witness_close_from_handler_midway :
+    (runEvs cfgA {} (historyA.take 16)).astatus .D2 = .inSoup ∧ (runEvs cfgA {} (historyA.take 16)).aprog .D2 = .handlerClose 3 ∧
+    (runEvs cfgA {} (historyA.take 16)).inner.closed = true ∧ (runEvs cfgA {} (historyA.take 16)).evt = some false ∧
+    (runEvs cfgA {} (historyA.take 16)).inner.status (.U d2u) = .waitT .D ∧
+    (runEvs cfgA {} (historyA.take 16)).cpc = .idle ∧ (runEvs cfgA {} (historyA.take 16)).appClosed = false := by decide
+
+/-- a user task calls `close()` while the handler's close is under way (inserted after step 16 of `historyA`): the event exists, the
+    guard returns at once -/
+def historyA2 : List Ev := historyA.take 16 ++ [.appClose 7] ++ historyA.drop 16
+
+set_option maxRecDepth 100000 in
+theorem C05App_witness_close_from_handler_second_caller :
+    (runEvs cfgA {} historyA2).trace2 =
+      [.msgEnter 3, .closeRet (.user 7) .ok, .cbEnter, .cbExit, .closeRet (.handler 3) .ok, .msgExit 3] := by decide
 
 /-! ### (B) `close()` awaited in the cancellation clean-up of a message callback -/
 
@@ -61,30 +85,52 @@ def historyB : List Ev := login ++
    .inner (.run .C), .inner (.run .D), .inner (.run .C), .inner (.run .L), .inner (.run .C), .inner (.run .M), .inner (.run .C),
    .inner (.run .R), .inner (.run .C), .run .D2]
 
-def innerTasks : List Sess.Tid := [.R, .D, .L, .M, .C, .V, .U 1]
-def appTasks : List ATid := [.D2, .V2]
-
 set_option maxRecDepth 100000 in
-/-- old order: the clean-up's `close()` creates the event and waits; the closer waits for the dispatcher: nothing can run, the
-    close callback is never entered, the application session never reports closed -/
-theorem C05App_witness_cleanup_close_deadlock :
-    (runEvs (cfgB false) {} historyB).inner.closed = true ∧
-    (runEvs (cfgB false) {} historyB).inner.cstage = .cb .C 0 .closingTail ∧
-    (runEvs (cfgB false) {} historyB).cpc = .waitD2 ∧
-    (runEvs (cfgB false) {} historyB).astatus .D2 = .waitE ∧ (runEvs (cfgB false) {} historyB).evt = some false ∧
-    (runEvs (cfgB false) {} historyB).appClosed = false ∧
-    (runEvs (cfgB false) {} historyB).trace2 = [.msgEnter 3] ∧
-    innerTasks.all (fun t => !runnableI (runEvs (cfgB false) {} historyB) t) = true ∧
-    appTasks.all (fun t => !runnable2 (runEvs (cfgB false) {} historyB) t) = true := by decide
-
-set_option maxRecDepth 100000 in
-/-- repaired order (/repo 7eb8348): `closed` is already true, the clean-up's `close()` returns at once, the dispatcher ends, the
-    closer goes on and the close completes -/
+/-- the order as it is (/repo 7eb8348): `closed` is already true, the clean-up's `close()` returns at once through its guard, the
+    dispatcher ends, the closer goes on and the close completes -/
 theorem C05App_witness_cleanup_close_repaired :
     (runEvs (cfgB true) {} (historyB ++ [.inner (.run .C)])).trace2 =
       [.msgEnter 3, .closeRet (.handler 3) .ok, .msgAbandon 3, .cbEnter, .cbExit] ∧
     (runEvs (cfgB true) {} (historyB ++ [.inner (.run .C)])).inner.cstage = .finished ∧
     (runEvs (cfgB true) {} (historyB ++ [.inner (.run .C)])).cpc = .finished ∧
     (runEvs (cfgB true) {} (historyB ++ [.inner (.run .C)])).appClosed = true := by decide
+
+set_option maxRecDepth 100000 in
+/-- the old order with the repaired `close()`: past the guard the call runs on the dispatcher, finds the soup session closed and
+    returns at once; the event it created is set at the end of `_on_soup_close` -/
+theorem C05App_witness_cleanup_close_old_order_no_deadlock :
+    (runEvs (cfgB false) {} (historyB ++ [.inner (.run .C)])).trace2 =
+      [.msgEnter 3, .closeRet (.handler 3) .ok, .msgAbandon 3, .cbEnter, .cbExit] ∧
+    (runEvs (cfgB false) {} (historyB ++ [.inner (.run .C)])).inner.cstage = .finished ∧
+    (runEvs (cfgB false) {} (historyB ++ [.inner (.run .C)])).cpc = .finished ∧
+    (runEvs (cfgB false) {} (historyB ++ [.inner (.run .C)])).evt = some true ∧
+    (runEvs (cfgB false) {} (historyB ++ [.inner (.run .C)])).appClosed = true := by decide
+
+/-! ### (C) the callback's `close()` races with a close another task has started -/
+
+def cfgC : ACfg :=
+  { dec := fun n => if n = 0 then .skip else .val n
+    hasMsgCb := true, msgBeh := fun v => if v = 3 then .awaitClose 0 else .await 5, hasCb := true, cbBeh := .ret,
+    closedFirst := true }
+
+/-- the callback for 3 is in flight (4 is queued behind it) when the peer disconnects; the closing task enters the close body
+    (soup session closed, its dispatcher cancelled); now the callback calls `close()`: returns at once; the callback returns, the
+    dispatcher takes 4; the closing task goes on, reaches `_on_soup_close`, cancels the dispatcher: the callback for 4 is
+    abandoned; close callback, event set -/
+def historyC : List Ev := login ++
+  [.run .D2, .inner (.run .D), .inner (.data [.msg 3, .msg 4]), .inner (.run .R), .inner (.run .R),
+   .inner (.run .D), .inner (.run .D), .inner (.run .D), .run .D2,
+   .inner .eof, .inner (.run .C),
+   .run .D2, .run .D2,
+   .inner (.run .D), .inner (.run .C), .inner (.run .L), .inner (.run .C), .inner (.run .M), .inner (.run .C),
+   .inner (.run .R), .inner (.run .C), .run .D2, .inner (.run .C)]
+
+set_option maxRecDepth 100000 in
+theorem C05App_witness_close_from_handler_race :
+    (runEvs cfgC {} historyC).trace2 =
+      [.msgEnter 3, .closeRet (.handler 3) .ok, .msgExit 3, .msgEnter 4, .msgAbandon 4, .cbEnter, .cbExit] ∧
+    (runEvs cfgC {} historyC).inner.cstage = .finished ∧ (runEvs cfgC {} historyC).cpc = .finished ∧
+    (runEvs cfgC {} historyC).appClosed = true ∧ (runEvs cfgC {} historyC).evt = some true ∧
+    (runEvs cfgC {} historyC).astatus .D2 = .done := by decide
 
 end NasdaqModel.Witness.C05App
